@@ -606,9 +606,10 @@ struct World {
             int rcode = guarded(op, [&] { o.move_assign(A.obj, B.obj); }, what, fired);
             executed = true;
             if (a == b) {
+                // C12 names self-assignment for copy AND move assignment: the field keeps its value
                 cnt.inc("probe.self_move_assign");
-                A.state = S_INDET; // valid but unspecified: never read again
-                A.model = ModelField();
+                if (rcode)
+                    A.state = S_INDET;
             } else if (rcode) {
                 A.state = S_INDET;
                 B.state = S_INDET;
@@ -1327,8 +1328,7 @@ Plan gen_plan(const std::string &property, const std::string &profile, uint64_t 
                 gs[dst] = gs[src];
                 if (kind == OP_MOVE_ASSIGN)
                     gs[src].state = S_MOVED;
-            } else if (kind == OP_MOVE_ASSIGN)
-                gs[src].state = S_INDET;
+            }
             break;
         }
         case OP_CONVERT_COPY:
@@ -1508,6 +1508,7 @@ RunResult run_plan(const Plan &p, Disabled &dis, Counters &cnt, Progress *prog)
     cuda::begin_run();
 #endif
     RunResult rr;
+    watchdog_arm(RUNNING_ON_VALGRIND ? 600 : 60);
     {
         World w(p, dis, cnt, prog);
         for (size_t i = 0; i < p.ops.size() && !w.failed; ++i)
@@ -1520,6 +1521,7 @@ RunResult run_plan(const Plan &p, Disabled &dis, Counters &cnt, Progress *prog)
         rr.nontrivial = w.mutating >= 1 && w.comparisons >= 1;
         rr.steps = w.steps;
     }
+    watchdog_disarm();
     return rr;
 }
 
